@@ -357,6 +357,61 @@ impl<'b, 'a: 'b> FmtVisitor<'a> {
 pub(crate) mod verif_local {
     use super::*;
 
+    /// `group_imports`
+    pub(crate) fn group(uts: Vec<UseTree>) -> Vec<Vec<UseTree>> {
+        group_imports(uts)
+    }
+
+    /// The `use` arm of `rewrite_reorderable_or_regroupable_items`, transcribed up to (not
+    /// including) the rendering: the normalised items with the comments found around them
+    /// attached, and the groups that are rendered (granularity applied, regrouped, sorted when
+    /// `reorder_imports`, empty groups dropped).
+    pub(crate) fn use_arm(
+        context: &RewriteContext<'_>,
+        reorderable_items: &[&ast::Item],
+        span: Span,
+    ) -> (Vec<UseTree>, Vec<Vec<UseTree>>) {
+        let mut normalized_items: Vec<_> = reorderable_items
+            .iter()
+            .filter_map(|item| UseTree::from_ast_with_normalization(context, item))
+            .collect();
+        let cloned = normalized_items.clone();
+        let list_items = itemize_list(
+            context.snippet_provider,
+            cloned.iter(),
+            "",
+            ";",
+            |item| item.span().lo(),
+            |item| item.span().hi(),
+            |_item| Ok("".to_owned()),
+            span.lo(),
+            span.hi(),
+            false,
+        );
+        for (item, list_item) in normalized_items.iter_mut().zip(list_items) {
+            item.list_item = Some(list_item.clone());
+        }
+        let attached = normalized_items.clone();
+        normalized_items = normalize_use_trees_with_granularity(
+            normalized_items,
+            context.config.imports_granularity(),
+        );
+        let mut regrouped_items = match context.config.group_imports() {
+            GroupImportsTactic::Preserve | GroupImportsTactic::One => {
+                vec![normalized_items]
+            }
+            GroupImportsTactic::StdExternalCrate => group_imports(normalized_items),
+        };
+        if context.config.reorder_imports() {
+            regrouped_items.iter_mut().for_each(|items| items.sort())
+        }
+        let groups = regrouped_items
+            .into_iter()
+            .filter(|use_group| !use_group.is_empty())
+            .collect();
+        (attached, groups)
+    }
+
     /// `compare_items`
     pub(crate) fn compare(a: &ast::Item, b: &ast::Item, context: &RewriteContext<'_>) -> Ordering {
         compare_items(a, b, context)
